@@ -454,6 +454,11 @@ def post_add(node: StorageNode, file_: ArchiveFile) -> None:
         StorageTransferAction.node_from != node,
         StorageTransferAction.autoclean == True,  # noqa: E712
     ):
+        # Self-loops are ignored.  (The query only excludes the loop through
+        # `node` itself, not loops through other nodes of our group.)
+        if edge.self_loop:
+            continue
+
         count = (
             ArchiveFileCopy.update(wants_file="N", last_update=utcnow())
             .where(
